@@ -72,7 +72,7 @@ Theorem C05_queue_bound : forall wbs r h431 fx (es : list ev),
   <= H1_MAX_PIPELINED_MESSAGES + (H1_MAX_BUFFER_SIZE + r) / MIN_HEAD.
 Proof.
   intros. apply div_bound; [vm_compute; reflexivity|].
-  pose proof (queue_bound (std_cfg wbs r h431 fx)) as X. cbn [c_maxb c_mh c_maxp c_r std_cfg] in X.
+  pose proof (queue_bound (std_cfg wbs r h431 fx)) as X. cbn [c_maxb c_mh c_maxp c_r std_cfg std_cfg2] in X.
   rewrite N.add_assoc. apply X; vm_compute; reflexivity.
 Qed.
 
@@ -100,7 +100,7 @@ Theorem C05_write_buf_bound : forall wbs r h431 fx H M (es : list ev),
   wb s < wbs + M + H * (nbl s + 1).
 Proof.
   intros wbs r h431 fx H M es Hw Hh Hes.
-  apply (write_buf_bound (std_cfg wbs r h431 fx)); auto; try (vm_compute; reflexivity). cbn [c_wbs std_cfg]. lia.
+  apply (write_buf_bound (std_cfg wbs r h431 fx)); auto; try (vm_compute; reflexivity). cbn [c_wbs std_cfg std_cfg2]. lia.
 Qed.
 
 (* "response bytes buffered ahead of the socket are limited by the write-buffer size plus one body
@@ -125,7 +125,7 @@ Theorem C05_write_buf_bound_outside_known : forall wbs r h431 fx H M (es : list 
   wb (steps (std_cfg wbs r h431 fx) st_init es) < wbs + M + H.
 Proof.
   intros wbs r h431 fx H M es Hw Hh Hes Hnb.
-  apply (write_buf_bound_outside_known (std_cfg wbs r h431 fx)); auto; try (vm_compute; reflexivity). cbn [c_wbs std_cfg]. lia.
+  apply (write_buf_bound_outside_known (std_cfg wbs r h431 fx)); auto; try (vm_compute; reflexivity). cbn [c_wbs std_cfg std_cfg2]. lia.
 Qed.
 
 (* non-vacuity: a schedule with a request body, back-pressure and a streamed response in which
